@@ -44,6 +44,8 @@ def run(scenario, profile='dev', timeout=600):
     with os.fdopen(fd, 'w') as f: json.dump(scenario, f)
     try:
         r = subprocess.run([b, path], stdout=subprocess.PIPE, stderr=subprocess.PIPE, timeout=timeout)
+    except subprocess.TimeoutExpired:
+        return [dict(timeout=timeout)]
     finally:
         os.unlink(path)
     out = r.stdout.decode(errors='replace'); k = out.rfind('OBS [')
